@@ -11,7 +11,7 @@ prop(
     "advances past retransmit/expiry deadlines; one 34k-packet run without acks per shard reaches 3-byte truncation. Per space the pn of built packets must be strictly increasing, the AEAD nonce on the wire "
     "(packet opened with rustls keys) must be the reported pn, and the truncated pn must reconstruct at largest-acked+1, mid and pn. "
     "(b) decode(wire(encode(pn, acked)), expected) == pn exhaustively for pn < 384 (1024 thorough) over all acked and expected, for pn < 4096 over all acked x {acked+1, mid, pn}, and for every "
-    "delta 1..2^16, 2^23+-1, 2^24, 2^31-1 and random deltas x acked at every width boundary and at 2^62-1-delta x expected in {acked+1, mid, pn}.",
+    "delta 1..2^16, 2^23+-1, 2^24, 2^31-1 and random deltas x acked at every width boundary and at 2^62-1-delta x expected in {acked+1, mid, pn}. A third of the whole-stack scenarios are one short echo followed by 10-40 datagrams from both sides on an otherwise idle connection, so that packets carrying nothing but a DATAGRAM frame (frames the sent journal does not track) are built and must consume their number too.",
     level_note="Record-then-abandon is not driven: production assemble() only drops a writer when nothing was written, and every production Package records what it writes. "
     "Gaps (numbers burnt by abandoned assemblies) are counted, not flagged: the property only demands strict increase. 4-byte truncation in the ledger would need 2^23 unacknowledged packets; it is covered by (b) only.",
     design_ref="DESIGN.md §3 C07",
@@ -19,6 +19,7 @@ prop(
           dict(name="l2", crate="l2", sub="c07", shards={Q: 8, T: 16}, budget={Q: 4, T: 150}, timeout={Q: 900, T: 7200})],
     floors={
         Q: {
+            "l2_scenarios_with_datagram_only_packets": 4,
             "ledger_histories": 100000,
             "built_packets_initial": 400000,
             "built_packets_handshake": 400000,
